@@ -70,6 +70,45 @@ fn canonical(ip: IpAddr) -> IpAddr {
     ip
 }
 
+/// The verdict for a source where every defensible reading of the documented semantics agrees,
+/// `None` where they differ (then the check does not judge REFUSED-vs-answered):
+/// * R1: the lists are one set ("if there are no denied networks, the allowed list denies
+///   anything that is not in it") — `source_allowed`;
+/// * R2: IPv4 and IPv6 entries form independent list pairs (entries of the other family are as if
+///   absent, also for the "is the list empty" questions);
+/// * R3: as R1, but an IPv4 / IPv4-mapped source additionally matches IPv6 entries through its
+///   `::ffff:a.b.c.d` form (an operator may have written the mapped form).
+/// In every reading an IPv4-mapped IPv6 source is the IPv4 address, and every other IPv6 source
+/// (including `::1` and the deprecated IPv4-compatible `::a.b.c.d`) stays IPv6.
+pub fn source_verdict(deny: &[Net], allow: &[Net], src: IpAddr) -> Option<bool> {
+    let r1 = source_allowed(deny, allow, src);
+    let ip = canonical(src);
+    let same_family = |n: &&Net| matches!((n, ip), (Net::V4(..), IpAddr::V4(_)) | (Net::V6(..), IpAddr::V6(_)));
+    let d2: Vec<Net> = deny.iter().filter(same_family).cloned().collect();
+    let a2: Vec<Net> = allow.iter().filter(same_family).cloned().collect();
+    let r2 = source_allowed(&d2, &a2, src);
+    let r3 = match ip {
+        IpAddr::V4(v4) => {
+            let mapped = IpAddr::V6(v4.to_ipv6_mapped());
+            // only entries written in the mapped form itself (inside ::ffff:0:0/96) are read this way
+            let mapped_form = |n: &Net| matches!(n, Net::V6(a, len) if *len >= 96 && (a >> 32) == 0xffff);
+            let best = |list: &[Net]| {
+                list.iter()
+                    .filter_map(|n| n.matches(ip).or_else(|| if mapped_form(n) { n.matches(mapped).map(|l| l - 96) } else { None }))
+                    .max()
+            };
+            match (best(deny), best(allow)) {
+                (Some(d), Some(a)) => a > d,
+                (Some(_), None) => false,
+                (None, Some(_)) => true,
+                (None, None) => !deny.is_empty() || allow.is_empty(),
+            }
+        }
+        IpAddr::V6(_) => r1,
+    };
+    (r1 == r2 && r1 == r3).then_some(r1)
+}
+
 pub fn source_allowed(deny: &[Net], allow: &[Net], src: IpAddr) -> bool {
     let ip = canonical(src);
     let d = deny.iter().filter_map(|n| n.matches(ip)).max();
@@ -543,12 +582,20 @@ pub fn expect(cfg: &Config, src: IpAddr, b: &[u8]) -> Expect {
         e.tolerated.push("sig-record");
         any = true;
     }
-    if !source_allowed(&cfg.deny, &cfg.allow, src) {
-        if opcode == 0 {
-            e.gates.push("denied-source");
-            gate_codes.push(REFUSED);
-        } else {
-            e.tolerated.push("denied-source");
+    match source_verdict(&cfg.deny, &cfg.allow, src) {
+        Some(true) => {}
+        Some(false) => {
+            if opcode == 0 {
+                e.gates.push("denied-source");
+                gate_codes.push(REFUSED);
+            } else {
+                e.tolerated.push("denied-source");
+                tol_codes.push(REFUSED);
+            }
+        }
+        None => {
+            // the documented list semantics leave this (source, deny, allow) combination open
+            e.tolerated.push("access-verdict-open");
             tol_codes.push(REFUSED);
         }
     }
